@@ -71,6 +71,19 @@ func init() {
 	}
 }
 
+// versAltSpellings: candidate spellings that may be Compare-equal to v in the scheme's ecosystem
+// (verified with the real Compare before use).
+func versAltSpellings(scheme, v string) []string {
+	out := []string{v + ".0", v + "+b1", "v" + v, "0:" + v, v + "-r0", v + "-0", "0!" + v, strings.TrimPrefix(v, "v")}
+	if strings.HasSuffix(v, ".0") {
+		out = append(out, strings.TrimSuffix(v, ".0"))
+	}
+	if scheme == "golang" {
+		out = append(out, v+"+incompatible")
+	}
+	return out
+}
+
 var versOps = []string{"<", "<=", ">", ">=", "=", "!="}
 
 // versShapes enumerates every comparator sequence of length n whose bounds alternate validly.
@@ -222,7 +235,24 @@ func c04Unit(scheme string, n int) core.Unit {
 				}
 				rs := versRangeString(scheme, ops, vs)
 				r.Add("states", 1)
-				for _, probe := range pool[:min(len(pool), 2*n+2)] {
+				probes := append([]string{}, pool[:min(len(pool), 2*n+2)]...)
+				// Compare-equal alternative spellings of the bounds ('=' and '!=' must not be textual)
+				for bi, b := range vs {
+					if ops[bi] != "=" && ops[bi] != "!=" {
+						continue
+					}
+					for _, alt := range versAltSpellings(scheme, b) {
+						av, err := eco.SafeParse(e, alt)
+						bv, err2 := eco.SafeParse(e, b)
+						if err != nil || err2 != nil {
+							continue
+						}
+						if c, p := eco.SafeCompare(av, bv); p == nil && c == 0 {
+							probes = append(probes, alt)
+						}
+					}
+				}
+				for _, probe := range probes {
 					want, tag, ok := versExpect(scheme, e, ops, vs, probe)
 					if !ok {
 						continue
@@ -294,7 +324,7 @@ func init() {
 				"max_constraints":               c04MaxN(tier),
 			}
 		},
-		Rule:        "for each of the 11 schemes: every comparator sequence of length 1..n (quick 4, thorough 8) over {< <= > >= = !=} whose bounds alternate as the VERS spec requires, instantiated with increasing versions from 2-3 pools per scheme (plain releases; pre-releases and scheme-specific spellings), evaluated on every pool member up to just above the last bound (each bound itself, a version strictly between each neighbouring pair, one below, one above); plus vers:<scheme>/*. Expected value from the spec's interval semantics over the scheme's own Compare; pypi pre-/dev-release probes are expected excluded unless a constraint names a pre-release. distinct_nontrivial = evaluations whose expected value is true.",
+		Rule:        "for each of the 11 schemes: every comparator sequence of length 1..n (quick 4, thorough 8) over {< <= > >= = !=} whose bounds alternate as the VERS spec requires, instantiated with increasing versions from 2-3 pools per scheme (plain releases; pre-releases and scheme-specific spellings), evaluated on every pool member up to just above the last bound and on every Compare-equal alternative spelling (.0 suffix, v / 0: / 0! prefix, -r0, +build) of every '=' / '!=' bound (each bound itself, a version strictly between each neighbouring pair, one below, one above); plus vers:<scheme>/*. Expected value from the spec's interval semantics over the scheme's own Compare; pypi pre-/dev-release probes are expected excluded unless a constraint names a pre-release. distinct_nontrivial = evaluations whose expected value is true.",
 		Assumptions: []string{"constraint versions are taken from fixed increasing pools (validated against the scheme's Compare on every run), not from all versions", "quick stops at 4 constraints; thorough reaches the 8 the property names (the letter-case pools stop at 6)"},
 	})
 }
